@@ -155,10 +155,31 @@ def canonical(v):
     return repr(v)
 
 
+def _other_database(db):
+    """The program also works with ANOTHER database for a moment (PushSingleton / PopSingleton), using the
+    dimensionless quantity there; nothing is asked of `db` itself."""
+    other = UnitDatabase(default_singleton=True)
+    other.AddUnitBase("mass", "kilogram", "kg")
+    other.AddCategory("mass", "mass")
+    UnitDatabase.PushSingleton(other)
+    try:
+        return (repr(Quantity.CreateEmpty()), repr(Scalar.CreateEmptyScalar(2.0) * Scalar(3.0, "kg")), repr(2.0 / Array([4.0], "kg")))
+    finally:
+        UnitDatabase.PopSingleton()
+
+
+QUERIES["<work with another database: empty quantity, empty Scalar * kg, 2 / Array(kg)>"] = _other_database
+QUERIES["Array.CreateEmptyArray([2])*Array([1],'m','new')"] = lambda db: Array.CreateEmptyArray([2.0]) * Array([1.0], "m", "new")
+QUERIES["Quantity.CreateEmpty()*ObtainQuantity('m','new')"] = lambda db: Quantity.CreateEmpty() * ObtainQuantity("m", "new")
+QUERIES["Scalar.CreateEmptyScalar(2).GetUnitDatabase() is db"] = lambda db: Scalar.CreateEmptyScalar(2.0).GetUnitDatabase() is db
+OPS = [("R", k) for k in REG] + [("Q", k) for k in QUERIES]
+
+
 def run_op(db, op):
     kind, name = op
     f = REG[name] if kind == "R" else QUERIES[name]
-    with worlds.installed(db):
+    # process-wide state is reset once per history (make / fresh_outcome), NOT between the steps of a history
+    with worlds.installed(db, keep_globals=True):
         try:
             return ("ok", canonical(f(db)))
         except Exception as e:
@@ -175,6 +196,7 @@ class Sys:
 
 
 def make():
+    worlds.reset_globals()
     return Sys()
 
 
@@ -202,11 +224,14 @@ def fresh_outcome(regs, op):
     key = (regs, op)
     r = _FRESH.get(key)
     if r is None:
+        saved = Quantity._EMPTY_QUANTITY
+        worlds.reset_globals()  # a fresh process has no process-wide state either
         db = build_world()
         for name in regs:
             run_op(db, ("R", name))
         worlds.clear_caches(db)
         r = _FRESH[key] = run_op(db, op)
+        Quantity._EMPTY_QUANTITY = saved  # the warm history continues with ITS process-wide state
     return r
 
 
@@ -272,7 +297,7 @@ def replay(hist_ops):
 
 def run(ctx):
     depth = 5 if ctx.thorough else 3
-    res = explorer.bfs(ctx, make, apply, OPS, canon, max_depth=depth)
+    res = explorer.bfs(ctx, make, apply, OPS, canon, max_depth=depth, lookahead=2)
     ctx.level = "model_checking"
     ctx.states = res["states"]
     ctx.transitions = res["transitions"]
